@@ -452,4 +452,66 @@ theorem randomAssign_ok_facts (st : State) (ids : List Nat) (ch : List Int) (hl 
         have := List.any_eq_false.mp c1'.1 e.1 hm
         exact fresh_nowhere st e.1 (by simpa using this) i h0 hn
 
+/-- after placements on pairwise different seats every entry's seat holds its id -/
+theorem placeAll_at (st : State) (b : List (Nat × Int)) (hs : b.Pairwise (fun a c => a.2 ≠ c.2)) :
+    ∀ e ∈ b, idAt (placeAll st b) e.2 = some e.1 := by
+  intro e he
+  rw [placeAll_id st b hs]
+  have : b.find? (fun x => x.2 == e.2) = some e := by
+    cases hf : b.find? (fun x => x.2 == e.2) with
+    | none =>
+      rw [List.find?_eq_none] at hf
+      exact absurd (by simp) (hf e he)
+    | some x =>
+      have hx := List.mem_of_find?_eq_some hf
+      have hxs : x.2 = e.2 := by simpa using List.find?_some hf
+      rw [pairwise_inj (·.2) b hs x hx e he hxs]
+  rw [this]
+
+/-- taking a just-placed batch out again (the release of the fixed seats of a refused `batchAddPlayers`) gives back the
+occupants there were -/
+theorem release_restores (st : State) (hu : IdsUnique st) (b : List (Nat × Int))
+    (he : ∀ e ∈ b, 0 ≤ e.2 ∧ e.2 < st.maxSeat ∧ idAt st e.2 = none)
+    (hf : ∀ e ∈ b, ∀ i : Int, 0 ≤ i → i < st.maxSeat → idAt st i ≠ some e.1)
+    (hs : b.Pairwise (fun a c => a.2 ≠ c.2)) (hi : b.Pairwise (fun a c => a.1 ≠ c.1)) :
+    (∀ i : Int, 0 ≤ i → i < st.maxSeat → idAt (remove (placeAll st b) (b.map (·.1))).1 i = idAt st i) ∧
+    (remove (placeAll st b) (b.map (·.1))).1.maxSeat = st.maxSeat := by
+  have hat := placeAll_at st b hs
+  have hm := placeAll_maxSeat st b
+  have hu1 := placeAll_unique st b hu hs hi hf
+  have hok : (remove (placeAll st b) (b.map (·.1))).2 = .ok := by
+    unfold remove
+    have : ((b.map (·.1)).any fun id => !(hasPlayer (placeAll st b) id)) = false := by
+      rw [List.any_eq_false]
+      intro x hx
+      obtain ⟨e, hem, hex⟩ := List.mem_map.mp hx
+      have hp : hasPlayer (placeAll st b) x = true := by
+        rw [hasPlayer_iff]
+        exact ⟨e.2, (he e hem).1, by rw [hm]; exact (he e hem).2.1, by rw [hat e hem, hex]⟩
+      simp [hp]
+    simp [this]
+  refine ⟨?_, by rw [remove_maxSeat, hm]⟩
+  intro i h0 hn
+  rw [remove_id _ _ hok]
+  have hiff := remove_cleared_iff (placeAll st b) hu1 (b.map (·.1)) hok i h0 (by rw [hm]; exact hn)
+  by_cases hc : i ∈ (b.map (·.1)).map (seatOf (placeAll st b))
+  · simp only [hc, if_true]
+    obtain ⟨x, hx, hidx⟩ := hiff.mp hc
+    obtain ⟨e, hem, hex⟩ := List.mem_map.mp hx
+    -- i is e's seat
+    have : i = e.2 := hu1 i e.2 x h0 (by rw [hm]; exact hn) (he e hem).1 (by rw [hm]; exact (he e hem).2.1) hidx
+      (by rw [hat e hem, hex])
+    rw [this]; exact ((he e hem).2.2).symm
+  · simp only [hc, if_false]
+    rw [placeAll_id st b hs]
+    cases hfind : b.find? (fun x => x.2 == i) with
+    | none => rfl
+    | some e =>
+      exfalso
+      have hem := List.mem_of_find?_eq_some hfind
+      have hes : e.2 = i := by simpa using List.find?_some hfind
+      apply hc
+      apply hiff.mpr
+      exact ⟨e.1, List.mem_map.mpr ⟨e, hem, rfl⟩, by rw [← hes]; exact hat e hem⟩
+
 end SM
